@@ -118,6 +118,7 @@ impl Inst {
     }
 
     fn feed_generic<M: ShortMessage>(&mut self, msg: &M) -> CallResult {
+        #[cfg(helgoboss_midi_verif)]
         verif_hooks::set_now(self.now);
         match &mut self.sc {
             Scanner::Cc14(s) => {
@@ -187,6 +188,7 @@ impl Inst {
     }
 
     pub fn poll(&mut self, ch: u8) -> CallResult {
+        #[cfg(helgoboss_midi_verif)]
         verif_hooks::set_now(self.now);
         match &mut self.sc {
             Scanner::Poll(s) => {
@@ -207,6 +209,7 @@ impl Inst {
     }
 
     pub fn reset(&mut self) -> CallResult {
+        #[cfg(helgoboss_midi_verif)]
         verif_hooks::set_now(self.now);
         let (r, allocs) = match &mut self.sc {
             Scanner::Cc14(s) => guarded(|| s.reset()),
